@@ -11,6 +11,7 @@ import (
 	"encoding/json"
 	"fmt"
 	"io"
+	"math/big"
 	"runtime"
 	"strings"
 	"sync"
@@ -525,6 +526,52 @@ func RunC01(run *vk.Run) {
 		}
 	}
 	env.sharedPools = nil
+	// the wall clock as verification time (no time configured), with one options value kept across calls as
+	// a long-running verifier keeps it: a signing certificate that lives for three seconds is accepted while
+	// it is valid and refused once it has expired -- by the same options value as by a fresh one
+	func() {
+		nb := time.Now().Add(-time.Minute)
+		na := time.Now().Add(3 * time.Second).Truncate(time.Second)
+		short, err := mkCert(&x509.Certificate{SerialNumber: big.NewInt(77), Subject: m.SignCert.Subject, NotBefore: nb, NotAfter: na,
+			KeyUsage: x509.KeyUsageDigitalSignature, BasicConstraintsValid: true}, m.RootCert, &m.S.PublicKey, m.R)
+		if err != nil {
+			run.Infra(err)
+			return
+		}
+		gs := GoldenSpec{Snp: map[uint32][]byte{2: env.snpMeas}, Tdx: []*epb.VMTdx_Measurement{{Mrtd: m.Mrtd}}, Digest: Meas("fw"), Cert: short.Raw, Svn: 1,
+			Timestamp: time.Now().Add(-30 * time.Second), ClSpec: 4321}
+		en := Endorse(gs.Proto(), m.S)
+		ctx := fx.Ctx(nil, false, false)
+		vo := &verify.Options{RootsOfTrust: pool(m.RootCert)}
+		so := &gtb.SevValidateOptions{Endorsement: en, RootsOfTrust: pool(m.RootCert)}
+		to := &gtb.TdxValidateOptions{Endorsement: en, RootsOfTrust: pool(m.RootCert)}
+		calls := []struct {
+			name string
+			f    func() error
+		}{
+			{"verify.EndorsementProto", func() error { return verify.EndorsementProto(en, vo) }},
+			{"SevValidate", func() error { return gtb.SevValidate(ctx, proto.Clone(env.att).(*spb.Attestation), so) }},
+			{"TdxValidate", func() error { return gtb.TdxValidate(ctx, m.QuoteBytes, to) }},
+		}
+		first := make([]error, len(calls))
+		for i, c := range calls {
+			first[i] = c.f()
+		}
+		if !time.Now().Before(na) {
+			fmt.Printf("NOTE property=C01 wall-clock pass skipped: the machine was too slow for a three-second certificate\n")
+			return
+		}
+		time.Sleep(time.Until(na.Add(1200 * time.Millisecond)))
+		for i, c := range calls {
+			if first[i] != nil {
+				continue // (the quote / report of the fixture may be refused for other reasons at the wall clock's time)
+			}
+			if err := c.f(); err == nil {
+				run.Violation("not-authentic:successive:wall-clock", fmt.Sprintf("%s with no verification time configured (the wall clock decides) and one options value kept across calls accepts an endorsement whose certificate expired %s ago; it had accepted it with the same options value while the certificate was valid", c.name, time.Since(na).Round(100*time.Millisecond)), nil)
+			}
+			run.Case("successive:wall-clock:"+c.name, true)
+		}
+	}()
 	run.AddDrift(drift)
 	run.Exhaustive = !run.IsQuick()
 	run.Rule = "every row of Verify.tla (payload x signature x certificate (incl. certificates with an unknown critical extension) x caller roots x caller time x provenance x entry point = " + fmt.Sprint(len(em.Cases)) + ") is realised with real RSA keys, certificates, signatures and attestations and executed on the named entry point (library functions, validator closures, SevValidate, TdxValidate, the three CLI commands in-process, and the signer-side sign/ops.VerifySignatureFromCA, all of whose rows run in both tiers); quick runs a seeded quarter; non-trivial = rows whose signature or certificate is not genuine"
